@@ -127,6 +127,10 @@ class RemoteState(dict):
     @classmethod
     def break_patches(cls, names):
         it = cls.patches_iter()
+        if it < 0:
+            # no patches apply to the object being restored, so there is nothing to split
+            # (placeholder frames would only be left behind when the object has several children)
+            return
         patches = cls.current_patches()
         sub_patches = []
         for name in names:
